@@ -384,7 +384,17 @@ fn real_main() {
         }
         Some("trace-xform") => {
             let inputs = cases::resolve_inputs(&get("inputs", "gen:100"), seed);
-            let lines: Vec<_> = inputs.par_iter().flat_map(|i| vec![cases::xform_case(i, "plain"), cases::xform_case(i, "gc"), cases::xform_case(i, "edited"), cases::xform_case(i, "plain-loc")]).collect();
+            let lines: Vec<_> = inputs
+                .par_iter()
+                .enumerate()
+                .flat_map(|(k, i)| {
+                    let mut v = vec![cases::xform_case(i, "plain"), cases::xform_case(i, "gc"), cases::xform_case(i, "edited"), cases::xform_case(i, "plain-loc")];
+                    if k % 3 == 0 {
+                        v.push(cases::xform_case(i, "plain-dwarf"));
+                    }
+                    v
+                })
+                .collect();
             cases::write_lines(&out, &lines);
             println!("cases {}", lines.len());
         }
